@@ -1,5 +1,5 @@
 (* C09, acceptance: a declaration whose provider map exists (no duplicate supplier, every struct expansion has a source),
-   whose requested type is supplied and whose providers admit a rank (acyclic) is ACCEPTED by the model of NewGraph - the
+   whose requested type is supplied and whose providers have a rank (acyclic) is ACCEPTED by the model of NewGraph - the
    breadth-first construction never runs out of fuel and the cycle check never reports a cycle. *)
 From Coq Require Import List Arith Bool NArith Lia.
 Import ListNotations.
